@@ -224,6 +224,12 @@ func (w *clWorld) poll(c *clCall, d time.Duration) string {
 		c.result = r
 		return r
 	case <-time.After(d):
+		select { // an outcome that is there wins whatever became of the timer meanwhile
+		case r := <-c.done:
+			c.result = r
+			return r
+		default:
+		}
 		if d >= 100*time.Millisecond {
 			clHit()
 		}
